@@ -7,11 +7,20 @@ META = {
 }
 def jobs(tier):
     J = []
+    shapes = []
     for nfd in (0, 1, 2, 3):
-        J.append(Job(name=f"recv.NFD{nfd}", group="C15.recv", harness="harness/C15_recv_fds.c", defines={"NFD": nfd}, real=["dbus/dbus-sysdeps-unix.c", "dbus/dbus-string.c"],
-                     env=["assert_stubs.c", "mem.c"], checks="std", unwind=34, timeout=900, tiers=("quick", "thorough") if nfd <= 2 else ("thorough",),
-                     encodes=["_dbus_read_socket_with_unix_fds"], stubs=["recvmsg = symbolic kernel answer within the stated contract", "close / close-on-exec = ghost descriptor table"],
-                     assumes=["at most one SCM_RIGHTS control message per recvmsg", "each control message lies inside the buffer offered (Linux adjusts cmsg_len on truncation)"],
-                     bounds=f"caller capacity {nfd} descriptors; 0..2 control messages with symbolic level/type/payload length; MSG_CTRUNC symbolic; bytes read -1..4",
-                     shape=f"receive with capacity {nfd}", cost=1 + nfd))
+        shapes.append((nfd, 0, 0))
+        for pay in sorted(set((0, nfd * 4))): shapes.append((nfd, 1, pay))
+        for pay in range(0, nfd + 1): shapes.append((nfd, 2, pay))
+    for nfd, kind, pay in shapes:
+        J.append(Job(name=f"recv.NFD{nfd}.K{kind}.P{pay}", group="C15.recv", harness="harness/C15_recv_fds.c", defines={"NFD": nfd, "KIND": kind, "PAY": pay},
+                     real=["dbus/dbus-string.c"], env=["assert_stubs.c", "mem.c"], checks="std", unwind=8,
+                     unwindset=["harness.0:34", "harness.1:8", "recvmsg.0:14", "memcpy.0:40", "_dbus_read_socket_with_unix_fds.0:2"], timeout=600, tiers=("quick", "thorough") if nfd <= 2 else ("thorough",),
+                     encodes=["_dbus_read_socket_with_unix_fds"], stubs=["recvmsg = kernel answer of concrete layout, symbolic contents", "close / close-on-exec = ghost descriptor table"],
+                     assumes=["CMSG_DATA(c) redefined as (unsigned char *)(c) + sizeof (struct cmsghdr) (equivalent to glibc's flexible-array form, which CBMC mis-models)", "at most one control message fits the exactly-sized control buffer", "the control message lies inside the buffer offered (Linux adjusts cmsg_len on truncation)"],
+                     bounds=f"caller capacity {nfd}; kernel answer: " + ("no control message" if kind == 0 else f"one non-SCM_RIGHTS message with {pay} payload bytes" if kind == 1 else f"SCM_RIGHTS with {pay} descriptor(s)") + "; MSG_CTRUNC symbolic; bytes read -1..4",
+                     shape=f"capacity {nfd}, kind {kind}, payload {pay}", cost=1 + nfd))
+    import importlib.util, os
+    sp = importlib.util.spec_from_file_location("vfjobs_x_C11", os.path.join(os.path.dirname(__file__), "C11.py")); m = importlib.util.module_from_spec(sp); m.Job = Job; sp.loader.exec_module(m)
+    lj = m.loader_job(1, "C15.fd_count", skip_findings=True); lj.name = "loader.fd_count.F1"; J.append(lj)
     return J
